@@ -128,6 +128,8 @@ class Tr:
         self.prefix = ""  # non-empty while a helper body is being inlined
         self.helpers = {}  # name -> FunctionDef of module-level functions / methods of the class
         self.depth = 0
+        self.nstmt = 0
+        self.pending_result = None  # (name, constructor call, statement counter): `res = ResultCls(...)` directly followed by `return res`
         self.helper_ret = None
         self.inplace = set()  # caller variables overwritten in place by conditional rebindings inside a helper
         self.poisoned = set()  # ... that the caller did NOT re-bind from the helper's results: any later use fails closed
@@ -388,7 +390,19 @@ class Tr:
         return tgt.value.id, m
 
     def stmt(self, st, guards):
+        self.nstmt += 1
         g = "[" + ", ".join(guards) + "]"
+        if (not self.prefix and not guards and isinstance(st, ast.Assign) and len(st.targets) == 1 and isinstance(st.targets[0], ast.Name)
+                and isinstance(st.value, ast.Call) and any(k.arg == "Fn_poles" for k in st.value.keywords)
+                and st.targets[0].id not in RESERVED and st.targets[0].id not in DENY_NAMES and not self.protected(st.targets[0].id)):
+            # the result object built in a local and returned by the very next statement
+            self.pending_result = (st.targets[0].id, st.value, self.nstmt)
+            return
+        if (not self.prefix and isinstance(st, ast.Return) and isinstance(st.value, ast.Name) and self.pending_result is not None
+                and self.pending_result[0] == st.value.id and self.pending_result[2] == self.nstmt - 1):
+            st = ast.copy_location(ast.Return(value=self.pending_result[1]), st)
+        elif self.pending_result is not None and self.pending_result[2] == self.nstmt - 1:
+            raise Fail(f"result object {self.pending_result[0]} is not returned by the next statement")
         bf = self._blank_form(st)
         if bf is not None:
             x, m = self.r(bf[0]), self.r(bf[1])
@@ -557,6 +571,14 @@ class Tr:
                     raise Fail("return under a guard inside a helper")
                 if v is None:
                     raise Fail("helper returns nothing")
+                if isinstance(v, ast.Call):
+                    # `return f(...)` is `_ret = f(...); return _ret`
+                    tmp = ast.Assign(targets=[ast.Name(id="_ret_", ctx=ast.Store())], value=v)
+                    ast.copy_location(tmp, st)
+                    ast.fix_missing_locations(tmp)
+                    self.stmt(tmp, guards)
+                    self.helper_ret = [self.r("_ret_")]
+                    return
                 self.helper_ret = [self.r(n) for n in _names(v)]
                 return
             if guards:
@@ -595,12 +617,13 @@ class Tr:
         if self.depth >= 3:
             raise Fail("helper nesting too deep")
         params = [a.arg for a in h.args.posonlyargs + h.args.args]
-        if params and params[0] == "self":
+        static = len(h.decorator_list) == 1 and isinstance(h.decorator_list[0], ast.Name) and h.decorator_list[0].id == "staticmethod"
+        if h.decorator_list and not static:
+            raise Fail(f"helper {h.name}: decorated")
+        if params and params[0] == "self" and not static:
             params = params[1:]
         if h.args.vararg or h.args.kwarg or h.args.kwonlyargs:
             raise Fail(f"helper {h.name}: unsupported signature")
-        if h.decorator_list:
-            raise Fail(f"helper {h.name}: decorated")
         bound = {}
         if len(call.args) > len(params):
             raise Fail(f"helper {h.name}: too many arguments")
